@@ -13,6 +13,19 @@ pub struct C07 {
 impl C07 {
     pub fn new(tier: Tier) -> C07 {
         let mut sets: Vec<MultiSet> = multi_sets(tier).into_iter().filter(|s| s.distinct_ratings && s.hi <= 5).collect();
+        if tier == Tier::Thorough {
+            // n! orders x all pairs: keep the 86-title F1 menu out of this check (C06 sweeps it)
+            sets.retain(|s| !(s.name.contains("F1 titles") && s.menu.len() > 40));
+            for l in [L::None] {
+                let f1 = fam1(l);
+                let sy = sym(l);
+                let mut menu = crate::doms::all_strings(&f1, 0, 2);
+                for extra in [format!("{0}{1}{0}", sy.v, sy.c), format!("{0}{0}{1}", sy.v, sy.c), format!("{0}{1}{1}", sy.v, sy.c), format!("{0}-{0}{1}", sy.v, sy.c), format!("{0}{1} {0}", sy.v, sy.c), format!("{1}{0}{1}{0}", sy.v, sy.c)] {
+                    menu.push(extra);
+                }
+                sets.push(MultiSet { l, name: format!("stores<=3 over {} F1 titles", menu.len()), menu, lo: 0, hi: 3, queries: crate::doms::all_strings(&f1, 0, 3), limits: None, distinct_ratings: true, block: 30 });
+            }
+        }
         if tier == Tier::Quick {
             // n! permutations x pairs make this the most expensive sweep: the quick tier keeps the F1 and
             // top-k stores for two scripts and searches the lexicon stores with one-word queries
